@@ -125,7 +125,7 @@ def labelsOf : E → List String
   | .byteN _ e => labelsOf e
   | .bin _ l r => labelsOf l ++ labelsOf r
 
-def hasReg (regs : List String) (e : E) : Bool := (labelsOf e).any regs.contains
+def hasReg (regs : List String) (e : E) : Bool := (labelsOf e).any (isRegName regs)
 
 /-- characters allowed inside `[ … ]` of the numeric bracket forms: only + - ( ) and atoms -/
 def bracketOk : E → Bool
